@@ -311,6 +311,26 @@ def main(tier):
             chk.violation("a second Description in %s (%s) is accepted: %s | document:\n%s" % (hn, form, rel.describe(kobs[cid]), text),
                           {"kind": "fault", "fault": {"f": "dup_child", "i": 0, "x": "Description"}, "via": "kernel", "doc": [], "main": text, "files": {},
                            "sites": [1], "block_spans": [[0, len(text)]], "observed": kobs[cid], "signature": sig}, sig)
+    # a second singleton child written after other children (a method in parentheses with a child of the same kind of its own)
+    sk = {
+        "second_url_path_after_method_with_path": "JSIGHT 0.3\nURL /zs/{x}/{y}/{z}\n  Path\n  {\n    \"x\": 1\n  }\n  GET\n  (\n    Path\n    {\n      \"y\": 1\n    }\n    200 any\n  )\n  Path\n  {\n    \"z\": 1\n  }\n",
+        "second_url_path_after_two_methods": "JSIGHT 0.3\nURL /zs/{x}/{y}/{z}\n  Path\n  {\n    \"x\": 1\n  }\n  GET\n  (\n    Path\n    {\n      \"y\": 1\n    }\n    200 any\n  )\n  POST\n  (\n    200 any\n  )\n  Path\n  {\n    \"z\": 1\n  }\n",
+        "second_method_query_after_request": "JSIGHT 0.3\nPOST /zs\n  Query\n  {\n    \"a\": 1\n  }\n  Request any\n  Query\n  {\n    \"b\": 1\n  }\n  200 any\n",
+        "second_info_title_after_description": "JSIGHT 0.3\nINFO\n  Title \"A\"\n  Version 1\n  Description\n  (\n    text\n  )\n  Title \"B\"\n",
+        "second_response_headers_after_body": "JSIGHT 0.3\nGET /zs\n  200\n    Headers\n    {\n      \"h\": 1\n    }\n    Body any\n    Headers\n    {\n      \"g\": 1\n    }\n",
+        "second_protocol_after_method": "JSIGHT 0.3\nURL /zs\n  Protocol json-rpc-2.0\n  Method zm\n  (\n    Result\n    {}\n  )\n  Protocol json-rpc-2.0\n",
+    }
+    sobs = harness("run", [rel.case("sk_" + k, t) for k, t in sk.items()])
+    for k, t in sk.items():
+        o = sobs["sk_" + k]
+        chk.evaluations += 1
+        chk.traces += 1
+        chk.nontrivial.add("second:" + k)
+        if o["outcome"] != "error":
+            sig = {"fault": "dup_child:" + k, "via": "kernel", "what": "not rejected", "block": "", "detail": "", "outcome": o["outcome"], "msg": "", "frames": ""}
+            chk.violation("a second singleton child written after other children (%s) is accepted | document:\n%s" % (k, t),
+                          {"kind": "fault", "fault": {"f": "dup_child", "i": 0, "x": k}, "via": "kernel", "doc": [], "main": t, "files": {}, "sites": [1],
+                           "block_spans": [[0, len(t)]], "observed": o, "signature": sig}, sig)
     # the directive that follows the text of a bare Description, its keyword directly followed by '#' or '//': a fault in
     # it is reported like anywhere else (the line is a directive line, not text)
     gk = {
